@@ -177,6 +177,11 @@ class Interp(object):
                 d = node.decl
                 if 'init' in d:
                     env[d['d']] = self.ev(d['init'], frame)
+                elif u.ty(d['ty'])['c'] == 'record' and u.ty(d['ty'])['s'].split()[-1] == 'cJSON':
+                    # a node with automatic storage (a sentinel in front of a list under construction): a node like any other;
+                    # it is no member, so a list that still reaches it afterwards fails the membership / link checks
+                    tmp = self.heap.new('local %s of %s' % (d['n'], fn.name), type=0)
+                    env[d['d']] = ('lrec', tmp)
                 else:
                     env[d['d']] = ('uninit',)
             elif node.kind == 'stmt':
@@ -254,6 +259,8 @@ class Interp(object):
             return ('str', bytes(e['bytes']))
         if k == 'mem':
             b = self.ev(e['b'], frame)
+            if isinstance(b, tuple) and b[0] == 'lrec':
+                b = b[1]
             if isinstance(b, tuple) and b[0] == 'row':
                 # a row of a constant table: the initialiser at the field's position
                 rec = None
@@ -310,6 +317,9 @@ class Interp(object):
                 if inner.get('k') == 'ref' and inner.get('dk') not in ('local', 'param'):
                     return ('glob', inner['n'])
                 if inner.get('k') == 'ref':
+                    cur = frame['env'].get(inner['d'])
+                    if isinstance(cur, tuple) and cur[0] == 'lrec':
+                        return cur[1]
                     return ('ploc', frame['env'], inner['d'])
                 if inner.get('k') == 'mem':
                     return ('pfld', self.ev(inner['b'], frame), inner['f'])
@@ -388,6 +398,8 @@ class Interp(object):
             return
         if l.get('k') == 'mem':
             b = self.ev(l['b'], frame)
+            if isinstance(b, tuple) and b[0] == 'lrec':
+                b = b[1]
             self.heap.set(b, l['f'], v, 'at ' + fn.where(lhs))
             return
         if l.get('k') == 'un' and l['op'] == '*':
